@@ -37,18 +37,13 @@ structure ParseOut where
   warnings : List Str := []          -- names of unknown options warned about, in order
 deriving Repr, Inhabited, DecidableEq
 
-/-- unknown-option policy and remaining text along the path root → final node -/
-def unknownPolicy (P : Prog) : List Nat → List Str → List Str → (Option UErr × List Str × List Str)
-  | [], warns, rem => (none, warns, rem)
-  | n :: r, warns, rem =>
-    let nd := P.node n
-    match nd.umode with
-    | .fail =>
-      match nd.unknown with
-      | u :: _ => (some (.unknown u), warns, rem)
-      | [] => unknownPolicy P r warns (rem ++ nd.text)
-    | .warn => unknownPolicy P r (warns ++ nd.unknown) (rem ++ nd.text)
-    | .pass => unknownPolicy P r warns (rem ++ nd.text)
+/-- the unknown-option policy: each unknown option is judged by the mode of the level it was given
+at, in command-line order; the first one at a `fail` level ends `Parse` -/
+def unknownPolicy : List (Str × UMode) → List Str → (Option UErr × List Str)
+  | [], warns => (none, warns)
+  | (u, .fail) :: _, warns => (some (.unknown u), warns)
+  | (u, .warn) :: r, warns => unknownPolicy r (warns ++ [u])
+  | (_, .pass) :: r, warns => unknownPolicy r warns
 
 def helpRequested (P : Prog) (n : Nat) : Bool :=
   let nd := P.node n
@@ -66,9 +61,9 @@ def parseUser (ext : Ext) (P : Prog) (args : List Str) : ParseOut :=
     match reqErr with
     | some e => { st := s, err := some e }
     | none =>
-      match unknownPolicy s.P (s.P.path s.cur) [] [] with
-      | (some e, warns, _) => { st := s, err := some e, warnings := warns }
-      | (none, warns, rem) => { st := s, remaining := some rem, warnings := warns }
+      match unknownPolicy s.unk [] with
+      | (some e, warns) => { st := s, err := some e, warnings := warns }
+      | (none, warns) => { st := s, remaining := some s.rem, warnings := warns }
 
 inductive DispatchOut
   | helpCalled (text : Str)                 -- help written to Writer, ErrorHelpCalled
